@@ -174,14 +174,19 @@ where
     const MIN_SIZE: usize = Self::OFFSET_SIZE;
 
     fn size(&self) -> usize {
-        let mut iter = self.bytes_iter();
-        let last_payload = match (&mut iter).map(Result::unwrap).last() {
-            Some(payload) => payload,
-            None => return Self::OFFSET_SIZE,
-        };
-        match iter.data {
-            Some(_) => iter.pos + Self::OFFSET_SIZE,
-            None => iter.pos + ceil_mul(T::from_bytes(last_payload).unwrap().size(), Self::ALIGN),
+        let max_offset = L::max_value().to_usize().unwrap();
+        let mut pos = 0;
+        loop {
+            let offset = L::from_bytes(&self.data[pos..]).unwrap().to_usize().unwrap();
+            if offset == 0 {
+                // Terminating slot.
+                break pos + Self::OFFSET_SIZE;
+            } else if offset == max_offset {
+                // The last item: its own slot and its actual size.
+                let payload = &self.data[(pos + Self::OFFSET_SIZE)..];
+                break pos + Self::OFFSET_SIZE + ceil_mul(T::from_bytes(payload).unwrap().size(), Self::ALIGN);
+            }
+            pos += offset;
         }
     }
 }
